@@ -319,19 +319,37 @@ class World(object):
         orig_one = Function.add_constraints_from_one_list_of_points
         orig_two = Function.add_constraints_from_two_lists_of_points
 
-        def one(self, list_of_points, constraint_name, set_class_constraint_i):
-            if world.cur is not None:
-                world.cur.table_calls.append({"f": self, "name": constraint_name, "l1": list(list_of_points),
-                                              "l2": None, "fn": set_class_constraint_i, "symmetry": False})
-            return orig_one(self, list_of_points, constraint_name, set_class_constraint_i)
+        import inspect
+        sig_one, sig_two = inspect.signature(orig_one), inspect.signature(orig_two)
 
-        def two(self, list_of_points_1, list_of_points_2, constraint_name, set_class_constraint_i_j, symmetry=False):
-            if world.cur is not None:
-                world.cur.table_calls.append({"f": self, "name": constraint_name, "l1": list(list_of_points_1),
-                                              "l2": list(list_of_points_2), "fn": set_class_constraint_i_j,
-                                              "symmetry": symmetry})
-            return orig_two(self, list_of_points_1, list_of_points_2, constraint_name, set_class_constraint_i_j,
-                            symmetry=symmetry)
+        def _bound(sig, self_, a, k):
+            # the hooks are transparent: whatever spelling the caller uses goes to the library unchanged; the record
+            # is read through the library's *own* signature (and skipped if that cannot be done)
+            try:
+                ba = sig.bind(self_, *a, **k)
+                ba.apply_defaults()
+                return list(ba.arguments.values())[1:], ba.arguments
+            except TypeError:
+                return None, None
+
+        def one(self, *a, **k):
+            vals, named = _bound(sig_one, self, a, k)
+            if world.cur is not None and vals is not None and len(vals) >= 3:
+                world.cur.table_calls.append({"f": self, "name": vals[1], "l1": list(vals[0]),
+                                              "l2": None, "fn": vals[2], "symmetry": False})
+            return orig_one(self, *a, **k)
+
+        def two(self, *a, **k):
+            vals, named = _bound(sig_two, self, a, k)
+            if world.cur is not None and vals is not None and len(vals) >= 4:
+                l2 = vals[1]
+                world.cur.table_calls.append({"f": self, "name": vals[2], "l1": list(vals[0]),
+                                              "l2": list(l2) if l2 is not None else None, "fn": vals[3],
+                                              "symmetry": bool(named.get("symmetry", False)),
+                                              # a second list that is not given: what it stands for is the
+                                              # library's business, the shape oracles give no verdict on that table
+                                              "unknown": l2 is None})
+            return orig_two(self, *a, **k)
 
         Function.add_constraints_from_one_list_of_points = one
         Function.add_constraints_from_two_lists_of_points = two
@@ -502,6 +520,20 @@ class World(object):
     def op_newpoint(self, op):
         from PEPit import Point
         self.bind(op["out"], Point(), "point")
+
+    def op_praw(self, op):
+        """A combination built with the documented constructor Point(is_leaf=False, decomposition_dict=...), which
+        keeps explicit zero weights (sums and products built with operators prune them)."""
+        from PEPit import Point
+        dd, den = {}, {}
+        for hname, w in op["terms"]:
+            t = self.get(hname)
+            for leaf, c in t.decomposition_dict.items():
+                dd[leaf] = dd.get(leaf, 0.0) + w * c
+            for k, v in self.den[hname].items():
+                den[k] = den.get(k, 0.0) + w * v
+        pt = Point(is_leaf=False, decomposition_dict=dd)
+        self.bind(op["out"], pt, "point", den={k: v for k, v in den.items() if v != 0})
 
     def op_newexpr(self, op):
         from PEPit import Expression
